@@ -32,8 +32,9 @@ func (i *interpreter) unopS(instr *ssa.UnOp, x value) value {
 	case sym:
 		return i.p.symUnop(instr.Op, xv)
 	case *value:
-		if instr.Op == token.MUL && i.p.foot != nil {
-			i.p.foot.read(xv)
+		if instr.Op == token.MUL && i.p.foot != nil && i.p.foot.cur != 0 {
+			i.p.foot.site = instr.Parent().String()
+			return i.loadF(mustDeref(instr.X.Type()), xv)
 		}
 	}
 	return unop(instr, x)
